@@ -135,9 +135,19 @@ def setNow (t : Nat) (rt : RT) : RT :=
   { rt with log := rt.flush.log, seen := rt.flush.seen, now := if rt.now ≤ t then t else rt.now }
 
 -- delivery (what a timer task, a service task or an external caller does: `send`) --------------------
-/-- `send` from outside the interpreter's own task: only enqueues (refused unless running) -/
+/-- `send` from outside the interpreter's own task: only enqueues (refused unless running); `self` is the
+    mark the engine puts on the queued entry -/
+def deliverQ (self : Bool) (e : Ev) (rt : RT) : RT :=
+  rlog ("send:" ++ e.type ++ ":" ++ rt.st.status) { rt with st := enqueueQ self e rt.st }
 def deliver (e : Ev) (rt : RT) : RT :=
   rlog ("send:" ++ e.type ++ ":" ++ rt.st.status) { rt with st := enqueue e rt.st }
+
+/-- the mark of a `send` that arrives while the interpreter is BUSY. sync: `_is_processing` is set, so
+    `send()` records the event in `_raised_in_drain` — whoever the caller is (an action, a timer thread, another
+    thread); async: `send()` marks nothing (only `raise` / `done.state.*` inside the run loop are) -/
+def busyMark : Flavor → Bool
+  | .sync => true
+  | .async => false
 
 /-- `_fail`: an unhandled service error puts the interpreter into the `error` status -/
 def stFail (s : St) : St :=
@@ -216,7 +226,8 @@ def fireTimerQ (fl : Flavor) (t : Timer) (rt : RT) : RT :=
   match fl with
   | .async => deliver (.after t.evType) { rt1 with fired := t :: rt1.fired }
   | .sync =>
-    if rt1.st.status = "running" ∧ rt1.st.cfg.contains t.owner then deliver (.after t.evType) { rt1 with fired := t :: rt1.fired }
+    -- the timer thread's `send()` finds `_is_processing` set: the event is marked
+    if rt1.st.status = "running" ∧ rt1.st.cfg.contains t.owner then deliverQ true (.after t.evType) { rt1 with fired := t :: rt1.fired }
     else rt1
 
 def fireWakeQ (fl : Flavor) (w : Wake) (rt : RT) : RT :=
@@ -225,9 +236,9 @@ def fireWakeQ (fl : Flavor) (w : Wake) (rt : RT) : RT :=
   | .iv i => completeInv i rt
 
 /-- an external input arriving while the interpreter is busy -/
-def extQ (m : Machine) (op : ExtOp) (rt : RT) : RT :=
+def extQ (fl : Flavor) (m : Machine) (op : ExtOp) (rt : RT) : RT :=
   match op with
-  | .send e => deliver (.user e) rt
+  | .send e => deliverQ (busyMark fl) (.user e) rt
   | .stop => stopRT rt
   | .obs => rlog (obsRec m rt) rt
 
@@ -261,7 +272,7 @@ def windowLoop (fl : Flavor) (m : Machine) (untilT untilSeq : Nat) : Nat → RT 
   | 0, rt => rt
   | fuel + 1, rt =>
     match nextOf rt.agenda untilT (dueWake rt untilT untilSeq) with
-    | .ext t op rest => windowLoop fl m untilT untilSeq fuel (extQ m op (setNow t { rt with agenda := rest }))
+    | .ext t op rest => windowLoop fl m untilT untilSeq fuel (extQ fl m op (setNow t { rt with agenda := rest }))
     | .wake w => windowLoop fl m untilT untilSeq fuel (fireWakeQ fl w (setNow w.due rt))
     | .idle => rt
 
@@ -522,20 +533,23 @@ def asyncDrainRT (c : RCx) : Nat → RT → RT
     | q :: rest => asyncDrainRT c fuel (asyncStepRT c q { rt with st := { rt.st with queue := rest } })
 
 -- SYNC -------------------------------------------------------------------------------------------------
-def drainLoopRT (c : RCx) : Nat → RT → RT
-  | 0, rt => if rt.st.queue.isEmpty then rt else { rt with st := { rt.st with queue := [] } }
-  | budget + 1, rt =>
+/-- `drainLoop` (Engine.lean) with the bookkeeping: model fuel, the loop's local `chained`, the state -/
+def drainLoopRT (c : RCx) : Nat → Nat → RT → RT
+  | 0, _, rt => if rt.st.queue.isEmpty then rt else { rt with st := { rt.st with queue := [] } }
+  | fuel + 1, chained, rt =>
     match rt.st.queue with
     | [] => rt
     | q :: rest =>
       if rt.st.status ≠ "running" then { rt with st := { rt.st with queue := [] } } else
+      if syncTrips c.m chained q then drainLoopRT c fuel 0 { rt with st := syncPurge rt.st } else
       let rt1 := processEventRT c (hooksFlagged c.u c.m) q.ev { rt with st := emit ("#recv:" ++ q.ev.type) { rt.st with queue := rest } }
       let rt2 := transientLoopRT c (hooksFlagged c.u c.m) c.m.maxIterations rt1
-      if rt2.st.err.isSome then rt2 else drainLoopRT c budget rt2
+      if rt2.st.err.isSome then rt2 else drainLoopRT c fuel (chainedNext chained q) rt2
 
-/-- `_process_event_queue()`: the budget is `max_iterations` + the number of events queued when the
-    drain starts (`drainBudget`: those do not count, only what is enqueued while draining does) -/
-def drainFlaggedRT (c : RCx) (rt : RT) : RT := drainLoopRT c (drainBudget c.m rt.st) rt
+/-- `_process_event_queue()`: `chained = 0`; the model fuel is the engine model's `drainFuel` — every send
+    that arrives while the drain is in flight is marked (`busyMark`), so no external entry is added meanwhile
+    and the same bound holds -/
+def drainFlaggedRT (c : RCx) (rt : RT) : RT := drainLoopRT c (drainFuel c.m rt.st) 0 rt
 
 def syncSendRT (c : RCx) (e : Ev) (rt : RT) : RT :=
   if rt.st.status = "running" then
